@@ -486,6 +486,13 @@ pub fn reph_position(p: &str) -> Option<usize> {
         if is_consonant(c) && c != KHANDA_TA {
             let st = i;
             i += 1;
+            // ra + ZWJ + hasanta + ya is the engine's own spelling of ra with ya-phala (zo-fola key after a bare ra): a
+            // well-formed conjunct when it stands EARLIER in the word; as the final conjunct it is left unjudged
+            let mut joiner_inside = false;
+            if c == RA && i + 2 < n && cs[i] == ZWJ && cs[i + 1] == HASANTA && cs[i + 2] == YA {
+                i += 3;
+                joiner_inside = true;
+            }
             while i + 1 < n && cs[i] == HASANTA && is_consonant(cs[i + 1]) && cs[i + 1] != KHANDA_TA {
                 i += 2;
             }
@@ -497,6 +504,9 @@ pub fn reph_position(p: &str) -> Option<usize> {
             }
             last_cluster = Some(st);
             last_unit_is_final_syllable = i == n;
+            if joiner_inside && i == n {
+                return None;
+            }
         } else if is_indep_vowel(c) {
             i += 1;
             if i < n && cs[i] == CHANDRA {
